@@ -71,6 +71,9 @@ type State struct {
 	Facts map[string]Rel
 	Trail []*ssa.BasicBlock
 	Snap  map[*ssa.Alloc]ssa.Value // cell contents just before the function's deferred calls ran
+	// Marks are sticky gate bits set by a GateSpec.Mark hook when a pass edge is traversed. The value is the
+	// subject whose redefinition (re-entry of its defining block) resets the mark; nil = never reset.
+	Marks map[string]ssa.Value
 	Outer *State                   // state at the closure creation site (for nested exploration), for witness only
 }
 
@@ -93,7 +96,43 @@ func (s *State) clone() *State {
 	}
 	n.Trail = append([]*ssa.BasicBlock(nil), s.Trail...)
 	n.Snap = s.Snap
+	if len(s.Marks) > 0 {
+		n.Marks = make(map[string]ssa.Value, len(s.Marks))
+		for k, v := range s.Marks {
+			n.Marks[k] = v
+		}
+	}
 	return n
+}
+
+// SetMark sets a sticky gate bit.
+func (s *State) SetMark(name string, subject ssa.Value) {
+	if s.Marks == nil {
+		s.Marks = map[string]ssa.Value{}
+	}
+	s.Marks[name] = subject
+}
+
+// HasMark reports whether the gate bit is set on this path.
+func (s *State) HasMark(name string) bool { _, ok := s.Marks[name]; return ok }
+
+// CondRel normalises a branch condition taken with outcome want into "x rel y" (ok=false for non-comparisons).
+func (s *State) CondRel(cond ssa.Value, want bool) (x, y ssa.Value, rel Rel, ok bool) {
+	c := s.Canon(cond)
+	switch v := c.(type) {
+	case *ssa.UnOp:
+		if v.Op == token.NOT {
+			return s.CondRel(v.X, !want)
+		}
+	case *ssa.BinOp:
+		if r, isCmp := relOfOp(v.Op); isCmp {
+			if !want {
+				r = ANY &^ r
+			}
+			return s.Canon(v.X), s.Canon(v.Y), r, true
+		}
+	}
+	return nil, nil, 0, false
 }
 
 // Canon resolves a value along this path: representation wrappers, resolved phis, loads of known cells,
@@ -474,6 +513,15 @@ func (e *Explorer) stateHash(b *ssa.BasicBlock, s *State) string {
 	}
 	sort.Strings(ks)
 	sb.WriteString(strings.Join(ks, ","))
+	if len(s.Marks) > 0 {
+		ks = ks[:0]
+		for k := range s.Marks {
+			ks = append(ks, k)
+		}
+		sort.Strings(ks)
+		sb.WriteByte(';')
+		sb.WriteString(strings.Join(ks, ","))
+	}
 	return sb.String()
 }
 
@@ -488,6 +536,11 @@ func (e *Explorer) invalidate(s *State, b *ssa.BasicBlock) {
 			if id, ok := e.P.valID[v]; ok {
 				ids[id] = true
 			}
+		}
+	}
+	for k, subj := range s.Marks {
+		if iv, ok := subj.(ssa.Instruction); ok && iv.Block() == b {
+			delete(s.Marks, k)
 		}
 	}
 	if len(ids) == 0 || len(s.Facts) == 0 {
